@@ -64,7 +64,7 @@ def run(rep: Report, tier: str) -> None:
 		return False
 
 	# ---- rule 1: guard dominance ------------------------------------------------------------------------------
-	dom = rep.rule('C05/disabled-no-io', 'every path from a public cache entry to a file-system effect passes the enabled side of a CacheSetting.enabled test', floor=12)
+	dom = rep.rule('C05/disabled-no-io', 'every path from a public cache entry to a file-system effect passes the enabled side of a CacheSetting.enabled test', floor=5)
 	provider, persistor = cache.cls('CacheProvider'), pers.cls('SymbolDBPersistor')
 	entries = [provider.method('get'), persistor.method('stored'), persistor.method('store'), persistor.method('restore')]
 	if any(e is None for e in entries):
@@ -177,6 +177,7 @@ def run(rep: Report, tier: str) -> None:
 		calls = [attr_chain(n.func) for n in ast.walk(m.node) if isinstance(n, ast.Call)]
 		ident.check('self._gen_filepath' in calls, f'symbols:{m.name}-uses-gen_filepath', m.where, f'SymbolDBPersistor.{m.name} no longer derives the file path from _gen_filepath (store and restore must agree on the identity-bearing name)')
 	rule_module_selection(rep, idx)
+	rule_key_sources_state(rep, idx)
 	rep.extra_coverage['effects_reached'] = total_effects
 	rep.extra_coverage['entries'] = [e.qualname for e in entries]
 
@@ -290,3 +291,26 @@ def rule_module_selection(rep: Report, idx) -> None:
 				r.violate(key, where, f'SymbolDB.{name} applies `{unparse(par)}` to the module path: a prefix/substring operation cannot tell `proj.shape` from `proj.shapes`', unparse(par))
 				continue
 			r.ok(key, where, message='passed on / truth test')
+
+
+def rule_key_sources_state(rep: Report, idx) -> None:
+	"""The cache identities are computed from what the loader reports NOW (mtime, content hash). The loader memoises both per instance; that is sound while
+	one instance lives for one run. Memo tables created in a class body (or any other process-global container) outlive the application object: after an
+	edit, a second run in the same interpreter still sees the old mtime / hash, hits the pre-edit AST and symbol files, and reproduces the old output.
+	The inventory of process-global state is C04's; the entries of the loader and cache modules are obligations here as well."""
+	from checks import c04
+	r = rep.rule('C05/identity-sources-not-process-global', 'the loader and cache classes keep their memo tables per instance: no container created in a class body and written through self, no mutated module-level container, no mutable default (shared with C04/global-state-inventory)', floor=1)
+	scratch = Report('C04', rep.tier)
+	c04.rule_c(scratch, idx)
+	n_ = 0
+	for rule in scratch.rules:
+		for o in rule.obligations:
+			if not any(part in o.key for part in ('rogw/tranp/app/loader.py', 'rogw/tranp/cache/', 'rogw/tranp/semantics/reflection/persistent.py', 'rogw/tranp/implements/syntax/lark/parser.py', 'rogw/tranp/module/module.py')):
+				continue
+			n_ += 1
+			if o.status == 'violated':
+				r.violate(o.key, (o.file, o.line), o.message, o.fragment)
+			else:
+				r.ok(o.key, (o.file, o.line))
+	if n_ == 0:
+		r.ok('loader-and-cache-clean', None, message='no process-global container in the loader / cache modules')
